@@ -459,6 +459,28 @@ def step (s : DState) (line : String) : DState × String :=
       let sums := (List.range (n / blk)).map fun k => toString (sweepFold ty blk (lo + k * blk) 0).toNat
       plain s (String.intercalate "," sums)
     | _, _, _, _ => plain s "bad-op"
+  | ["deca", h] =>
+    -- the public `Avp::decode_from` on a cursor: outcome, the AVP, and where the cursor stands afterwards (it may have
+    -- been moved past the end by the padding seek)
+    match unhex? h with
+    | some bs =>
+      plain s (match decAvp s.cfg s.ms.dict.lookup (bs.length + 2) 0 (.inRange bs) with
+        | .ok (a, c) => "ok " ++ a.dump ++ " pos=" ++ toString (match c with
+            | .inRange r => bs.length - r.length | .past o => bs.length + o + 1)
+        | .err _ => "err"
+        | .panic => "panic")
+    | none => plain s "bad-op"
+  | ["decg", len, h] =>
+    -- the public `Grouped::decode_from(reader, len, dict)`
+    match len.toNat?, unhex? h with
+    | some len, some bs =>
+      plain s (if 1 > s.cfg.limit then "err" else
+        match decGroup s.cfg s.ms.dict.lookup (bs.length + 2) 1 len 0 (.inRange bs) with
+        | .ok (ms, c) => "ok [" ++ dumpList ms ++ "] pos=" ++ toString (match c with
+            | .inRange r => bs.length - r.length | .past o => bs.length + o + 1)
+        | .err _ => "err"
+        | .panic => "panic")
+    | _, _ => plain s "bad-op"
   | ["decq", h] =>
     -- C04: outcome class only (no strict column: it would recurse as deep as the frame nests)
     match unhex? h with
